@@ -47,7 +47,9 @@ NearCases(zzdummy) ==
 Full  == <<97, 98, 48, 49, 45, 46, 42, 91, 93, 63, 124, 38, 64, 123, 125, 40, 41, 44, 58, 61, 60, 62, 33,
            39, 34, 96, 92, 32, 233>>
 Small == <<97, 49, 45, 46, 91, 93, 42, 124, 38, 61, 33, 39, 34, 96, 92, 32, 40, 41, 44, 58>>
-Alpha == IF IOEnv.ALPHA = "full" THEN Full ELSE Small
+(* for error coordinates (C12): failing texts with multi-byte characters and newlines before the error position *)
+ErrAlpha == <<97, 46, 91, 61, 233, 128512, 10, 34, 39, 32>>
+Alpha == IF IOEnv.ALPHA = "full" THEN Full ELSE IF IOEnv.ALPHA = "err" THEN ErrAlpha ELSE Small
 CharCases(zzdummy) ==
   LET A == {Alpha[i] : i \in DOMAIN Alpha}
       all == SetToSeq(UNION {[1..n -> A] : n \in 1..N})
